@@ -60,7 +60,7 @@ var (
 // isScalarType tells whether values of t are abstract scalars.
 func isScalarType(t reflect.Type) bool {
 	switch t.Kind() {
-	case reflect.Bool, reflect.Int32, reflect.Int64, reflect.Uint32, reflect.Uint64, reflect.Float32, reflect.Float64, reflect.String, reflect.Int, reflect.Uint:
+	case reflect.Bool, reflect.Int8, reflect.Int16, reflect.Int32, reflect.Int64, reflect.Uint8, reflect.Uint16, reflect.Uint32, reflect.Uint64, reflect.Float32, reflect.Float64, reflect.String, reflect.Int, reflect.Uint:
 		return true
 	case reflect.Slice:
 		return t.Elem().Kind() == reflect.Uint8
@@ -75,9 +75,9 @@ func scalarToCanon(v reflect.Value) string {
 	switch t.Kind() {
 	case reflect.Bool:
 		return strconv.FormatBool(v.Bool())
-	case reflect.Int, reflect.Int32, reflect.Int64:
+	case reflect.Int, reflect.Int8, reflect.Int16, reflect.Int32, reflect.Int64:
 		return strconv.FormatInt(v.Int(), 10)
-	case reflect.Uint, reflect.Uint32, reflect.Uint64:
+	case reflect.Uint, reflect.Uint8, reflect.Uint16, reflect.Uint32, reflect.Uint64:
 		return strconv.FormatUint(v.Uint(), 10)
 	case reflect.Float32, reflect.Float64:
 		return canonFloat(v.Float())
@@ -100,7 +100,7 @@ func setScalar(v reflect.Value, s string) {
 			panic(err)
 		}
 		v.SetBool(b)
-	case reflect.Int, reflect.Int32, reflect.Int64:
+	case reflect.Int, reflect.Int8, reflect.Int16, reflect.Int32, reflect.Int64:
 		i, err := strconv.ParseInt(s, 10, 64)
 		if err != nil {
 			panic(err)
@@ -109,7 +109,7 @@ func setScalar(v reflect.Value, s string) {
 			panic(fmt.Sprintf("token %s overflows %s", s, t))
 		}
 		v.SetInt(i)
-	case reflect.Uint, reflect.Uint32, reflect.Uint64:
+	case reflect.Uint, reflect.Uint8, reflect.Uint16, reflect.Uint32, reflect.Uint64:
 		i, err := strconv.ParseUint(s, 10, 64)
 		if err != nil {
 			panic(err)
